@@ -269,7 +269,7 @@ BOUNDS = {
     "quick": ["two pairwise alignments to one reference; reference length 1..2 (symbolic); each row has at most ONE gap run; gap lengths are shard keys (reference row 0..2, at most one non-reference row gapped, length 0..2); all gap positions symbolic inside the sequences",
               "bounded small integers because the code keys dicts by position (CrossHair must pick concrete keys)"],
 }
-BOUNDS["thorough"] = ["reference length 1..3, reference-row gap lengths up to 3, other-row lengths 0..2 each, both orders of the two pairwise alignments (many shards need > 10 min each: this tier is sized in hours)"]
+BOUNDS["thorough"] = ["reference length 1..3, reference-row gap lengths up to 3, other-row lengths 0..2 each, one order of the two (interchangeable) pairwise alignments, total gap length <= 6 (many shards need > 10 min each: this tier is sized in hours)"]
 ASSUMPTIONS = [
     "inputs are valid pairwise alignments: equal row lengths, no column that is a gap in both rows",
     "the composition of the helper functions reproduces pairwise_to_multiple (validated each run against the real function on concrete alignments); Alignment construction / to_type at the end is outside",
@@ -297,8 +297,12 @@ def obligations(tier):
         for rl2 in rls:
             for sl1 in sls:
                 for sl2 in sls:
-                    if not T and (sl1 + sl2 > 2 or (sl1 and sl2) or (rl1, sl1) > (rl2, sl2)):
-                        continue  # quick: one order of the (interchangeable) pairwise alignments; at most one gapped non-reference row
+                    if (rl1, sl1) > (rl2, sl2):
+                        continue  # one order of the (interchangeable) pairwise alignments
+                    if not T and (sl1 + sl2 > 2 or (sl1 and sl2)):
+                        continue  # quick: at most one gapped non-reference row
+                    if T and rl1 + rl2 + sl1 + sl2 > 6:
+                        continue  # thorough: total gap length <= 6 (the largest shards need > 30 min each)
                     args = {"rl1": rl1, "rl2": rl2, "sl1": sl1, "sl2": sl2, "RLMAX": 3 if T else 2}
                     tag = f"ref{rl1}_{rl2}/other{sl1}_{sl2}"
                     if max(sl1, sl2) >= 2 and max(rl1, rl2) >= 1:
